@@ -31,7 +31,7 @@ import (
 //	blk <dt> <tx>*                execute the next block (timestamp = previous + 1 + dt) on the committed state
 //	                              (ExecuteBlock; nothing is persisted)
 //	    <tx> ::= tx <signers> <C>.<m> [ <prog> ] | txchain <signers> <C>.<m> [ <prog> ] | txraw <signers> <hex>
-//	    <prog> ::= (put K V | del K | get K | cp K1 K2 | ntf D | mkl D | fail | ret D | wit X | inp | ctx | bi
+//	    <prog> ::= (put K V | del K | get K | cp K1 K2 | ntf D | mkl D | fail | panic | ret D | wit X | inp | ctx | bi
 //	               | call C.m [ <prog> ] | try C.m [ <prog> ])*
 //	commit                        persist the last executed block (AddBlock)
 //	keep                          hold the last executed candidate block together with the ExecuteResult that was returned
@@ -97,6 +97,7 @@ type txTrace struct {
 	cross     []string // cross hashes emitted, in program order
 	rw        []rwOp
 	swallowed bool // an inner failure was swallowed by a `try`
+	panicked  bool // the program reached its `panic` instruction
 }
 
 var traces = map[common.Uint256]*txTrace{}
@@ -173,7 +174,7 @@ func parseInstrs(toks []string) ([]instr, error) {
 			}
 			out = append(out, instr{op: toks[0], a: a})
 			toks = toks[2:]
-		case "fail", "inp", "ctx", "bi":
+		case "fail", "panic", "inp", "ctx", "bi":
 			out = append(out, instr{op: toks[0]})
 			toks = toks[1:]
 		case "wit":
@@ -255,6 +256,10 @@ func runText(s *native.NativeService, text string) ([]byte, error) {
 			tr.cross = append(tr.cross, hex.EncodeToString(h[:]))
 		case "fail":
 			return nil, errors.New("scripted failure")
+		case "panic":
+			tr.panicked = true
+			var np *txTrace
+			_ = np.log[0] // a genuine runtime panic (nil dereference), as a buggy handler would produce
 		case "ret":
 			return in.a, nil
 		case "wit":
@@ -541,10 +546,34 @@ func (f *atomic) Exec(r *hx.Run, op []string) string {
 		for _, tx := range txs {
 			delete(traces, tx.Hash())
 		}
-		res, err := f.led.execute(blk)
+		var res store.ExecuteResult
+		panicked := false
+		func() {
+			defer func() {
+				if e := recover(); e != nil {
+					panicked = true
+				}
+			}()
+			res, err = f.led.execute(blk)
+		}()
+		if panicked {
+			// a handler panic leaves ExecuteBlock (nothing recovers it): no result exists, nothing may have been persisted
+			f.lastOk = false
+			if f.led.ls.GetCurrentBlockHeight() != blk.Header.Height-1 {
+				r.Viol("C15:panicked-tx-left-trace", "a block whose execution panicked advanced the ledger")
+			}
+			return "panic"
+		}
 		if err != nil {
 			f.lastOk = false
 			return "err-exec"
+		}
+		// execution returned normally: no transaction whose handler panicked may be reported successful
+		for i, tx := range txs {
+			if tr := traces[tx.Hash()]; tr != nil && tr.panicked && res.Notify[i].State == event.CONTRACT_STATE_SUCCESS {
+				r.Viol("C15:panicked-tx-left-trace", fmt.Sprintf("the handler of tx %d panicked after %d storage operations, %d events and %d cross-chain records, but the transaction is reported successful and its partial effects are in the block result",
+					i, len(tr.rw), len(tr.notifs), len(tr.cross)))
+			}
 		}
 		f.lastBlk, f.lastRes, f.lastOk = blk, res, true
 		line := renderResult(res, txs, true)
@@ -1004,8 +1033,9 @@ func renderNative(res store.ExecuteResult) string {
 // ---- generator
 
 type agen struct {
-	r    *hx.Run
-	keys []string
+	r      *hx.Run
+	keys   []string
+	panics bool // some injected failures are panics
 }
 
 func (g *agen) key() string  { return g.keys[g.r.Rng.Intn(len(g.keys))] }
@@ -1032,7 +1062,11 @@ func (g *agen) prog(n, failAt, depth int) []string {
 	var out []string
 	for i := 0; i < n; i++ {
 		if i == failAt {
-			out = append(out, "fail")
+			if g.panics && g.r.Rng.Chance(1, 20) {
+				out = append(out, "panic")
+			} else {
+				out = append(out, "fail")
+			}
 			continue
 		}
 		c := g.r.Rng.Intn(20)
@@ -1116,7 +1150,7 @@ func (g *agen) tx(failing bool) string {
 
 func (f *atomic) Gen(r *hx.Run) {
 	r.Rule("blocks of 1..6 scripted transactions over a 4-key alphabet (programs of 1..8 primitive effects incl. nested calls to two test contracts, up to depth 3), with a failure injected at every position; each block executed by the real ExecuteBlock on a real ledger; some blocks are committed (AddBlock) so that later blocks read persisted state; distinct non-trivial = distinct (number of txs, ok/fail pattern, position of the failure, nested?) with at least one failing and one succeeding transaction")
-	g := &agen{r: r, keys: []string{"01", "02", "0301", "-"}}
+	g := &agen{r: r, keys: []string{"01", "02", "0301", "-"}, panics: true}
 	id := 0
 	nCases := r.Pick(150, 6000)
 	if f.reps > 1 {
@@ -1201,6 +1235,25 @@ func (f *atomic) Gen(r *hx.Run) {
 		r.Do("commit")
 		r.Do("blk 3 tx - B.run [ get 01 get 02 get 0301 bi ]")
 		r.Nontrivial(fmt.Sprintf("failpos/%d", k))
+	}
+	// a panic at every position of the same program (after k-1 effects), alone, after a successful transaction, and
+	// inside a nested call; the block after it must see the untouched state
+	for k := 0; k <= len(base); k++ {
+		id++
+		r.Case(fmt.Sprintf("panicpos-%d", k))
+		p := append([]string{}, base[:k]...)
+		p = append(p, "panic")
+		if k < len(base) {
+			p = append(p, base[k+1:]...)
+		}
+		r.Do("blk 0 tx s0 A.run [ put 02 11 ntf 99 mkl 0c ]")
+		r.Do("commit")
+		r.Do(fmt.Sprintf("blk 0 tx s0 A.run [ put 02 22 ntf 98 ] tx s0 A.run [ %s ] tx - B.run [ get 01 get 02 ]", strings.Join(p, " ")))
+		r.Do("commit") // nothing to commit: no result
+		r.Do(fmt.Sprintf("blk 1 tx s0 B.run [ try A.run [ %s ] get 01 get 02 ntf 07 ]", strings.Join(p, " ")))
+		r.Do("blk 2 tx - B.run [ get 01 get 02 get 0301 mkl 0d ]")
+		r.Do("commit")
+		r.Nontrivial(fmt.Sprintf("panicpos/%d", k))
 	}
 	// the context stack limit: 1023..1027 nested frames
 	for _, n := range []int{1, 2, 1022, 1023, 1024, 1025, 1026, 1030} {
